@@ -51,7 +51,28 @@ Definition dir_open (root : node) (dir : list str) (name : str) : option node :=
 (* options after parseStaticOptions *)
 Record sopts := mkso { so_prefix : str;   (* "" or "/" ++ trimmed *)
                        so_index : str;
-                       so_etag : bool }.
+                       so_etag : bool;
+                       so_fs : bool }.    (* FileSystem: http.FS(os.DirFS(dir)) instead of http.Dir(dir) *)
+
+(* what Open(name) resolves relative to the directory: None = error.
+   http.Dir: path.Clean("/" + name), no component with a NUL byte.
+   http.FS over os.DirFS: "/" is ".", one leading slash is dropped, and the rest must be a valid fs path - no
+   empty, "." or ".." element (so no doubled or trailing slash) - or "." itself *)
+Definition dir_rel (name : str) : option (list str) :=
+  let comps := clean_rooted name in if existsb has_nul comps then None else Some comps.
+
+Definition valid_comp (c : str) : bool :=
+  negb (match c with [] => true | _ => false end || str_eqb c dot || str_eqb c dotdot).
+
+Definition fs_rel (name : str) : option (list str) :=
+  if str_eqb name [c_slash] then Some []
+  else
+    let n := match name with c :: r => if N.eqb c c_slash then r else name | [] => [] end in
+    if str_eqb n dot then Some []
+    else let comps := split_slash [] n in
+         if forallb valid_comp comps && negb (existsb has_nul comps) then Some comps else None.
+
+Definition open_rel (fs : bool) (name : str) : option (list str) := if fs then fs_rel name else dir_rel name.
 
 Fixpoint trim_right_slash_rev (r : str) : str :=
   match r with c :: r' => if N.eqb c c_slash then trim_right_slash_rev r' else r | [] => [] end.
@@ -79,7 +100,8 @@ Inductive sresult :=
 Definition s_get : str := [71;69;84]%N.
 Definition s_head : str := [72;69;65;68]%N.
 
-(* path.Join(file, index) then Open: clean components of file ++ "/" ++ index *)
+(* path.Join(file, index) then Open: clean components of file ++ "/" ++ index (path.Join has cleaned the name
+   before Open sees it, so both kinds of file system resolve it alike) *)
 Definition static_decide (root : node) (dir : list str) (o : sopts) (method path : str) (inm_matches : bool) : sresult :=
   if negb (str_eqb method s_get || str_eqb method s_head) then SPass
   else
@@ -98,9 +120,12 @@ Definition static_decide (root : node) (dir : list str) (o : sopts) (method path
     | None => SPass
     | Some file0 =>
         let file := if str_eqb file0 [c_slash] then dot else trim_right_slash file0 in
-        match dir_open root dir file with
+        match open_rel (so_fs o) file with
         | None => SPass
-        | Some (File id) => if so_etag o && inm_matches then SNotModified id (clean_rooted file) else SServe id (clean_rooted file)
+        | Some rel =>
+        match lookup_node root (dir ++ rel) with
+        | None => SPass
+        | Some (File id) => if so_etag o && inm_matches then SNotModified id rel else SServe id rel
         | Some (Dir _) =>
             let redir := clean_string path in
             let redir' := if ends_with_slash path && negb (ends_with_slash redir) then redir ++ [c_slash] else redir in
@@ -111,5 +136,6 @@ Definition static_decide (root : node) (dir : list str) (o : sopts) (method path
               | Some (File id) => if so_etag o && inm_matches then SNotModified id (clean_rooted ifile) else SServe id (clean_rooted ifile)
               | _ => SPass
               end
+        end
         end
     end.
